@@ -1015,6 +1015,31 @@ def r_monitor(ctx):
                        "Monitor.__call__ divides by %s, a derived quantity that is 0 for small arguments (e.g. fewer than 100 "
                        "states): ZeroDivisionError as soon as verbose=True is used on a small job" % show(dv)[:60],
                        inputs='verbose=True with a small number of states')
+    # the values of `extra` are whatever the call sites pass (counts, numpy integers): they may only reach the text
+    # through str() / format, never through string concatenation or str.join
+    extra = ('v', 'extra', 'P')
+
+    def from_extra(x):
+        return x[0] in ('iter', 'item', 'sub') and any(y == extra for y in walk_term(x)) and \
+            not any(is_call(y, 'builtins.str', 'builtins.repr', 'builtins.format') for y in walk_term(x))
+
+    def stringish(x):
+        return (x[0] == 'c' and isinstance(x[1], str)) or (x[0] == 'bin' and x[1] == '+' and (stringish(x[2]) or stringish(x[3]))) \
+            or x[0] == 'fstr'
+    bad = None
+    for nd, s_ in ctx.all_subterms(f):
+        if s_[0] == 'bin' and s_[1] == '+':
+            for a, b in ((s_[2], s_[3]), (s_[3], s_[2])):
+                if from_extra(a) and stringish(b):
+                    bad = (nd.lineno, 'concatenates %s to a string' % show(a)[:40])
+        if s_[0] == 'call' and s_[1][0] == 'attr' and s_[1][2] == 'join' and len(s_[2]) == 1 and s_[2][0][0] == 'comp' and \
+                from_extra(s_[2][0][2]):
+            bad = (nd.lineno, 'joins %s as if it were a string' % show(s_[2][0][2])[:40])
+    run.check(bad is None, 'R-VERB', f, 'monitor:extra-values-only-through-str', bad[0] if bad else f.node.lineno,
+              'values of `extra` reach the progress line only through str()',
+              "Monitor.__call__ %s: the call sites pass counts (find_vertices: {'valid': sum(...)}, remove_useless: {'round': n}), so "
+              "the progress output raises TypeError as soon as verbose=True is used there" % (bad[1] if bad else ''),
+              inputs='find_vertices / remove_useless / latter_map_to_accessor with verbose=True', nontrivial=False)
     rets = [nd for nd in f.stmts(ast.Return) if nd.stmt.value is not None]
     run.check(not rets, 'R-VERB', f, 'monitor:returns-nothing', rets[0].lineno if rets else f.node.lineno,
               'the progress monitor returns nothing', 'Monitor.__call__ returns a value', nontrivial=False)
